@@ -302,3 +302,74 @@ Proof.
   { intros ->. exact Hhead. }
   exists secs, tz, b, extra. subst. auto 10.
 Qed.
+
+(* ---- and conversely: a stream of this form whose operations all succeed completes with that zone ---- *)
+Section GENFWD.
+Variables (u : bool) (p : zone) (fin : version).
+
+Lemma loopn_m_del : forall D tz tz' cur, Forall nsoa D -> m_fold m_del tz D = Ok tz' ->
+  loopn (ist u p tz cur (single (soa_rr fin)) false true) (map single D) = (ist u p tz' cur (single (soa_rr fin)) false true, None).
+Proof.
+  induction D as [|r D IH]; intros tz tz' cur Hf Hm; cbn [map loopn m_fold] in *.
+  - inversion Hm; reflexivity.
+  - inversion Hf as [|? ? Hr Hf']; subst. rewrite (step_other u p fin Mid tz cur true r Hr).
+    unfold m_del in Hm. destruct (in_zone (r_name r)); cbn [negb].
+    + destruct (t_delete_exact tz (single r)) as [z1| |]; try discriminate. cbn [res_of]. apply IH; assumption.
+    + apply IH; assumption.
+Qed.
+
+Lemma loopn_m_add : forall A tz tz' cur, Forall nsoa A -> m_fold m_add tz A = Ok tz' ->
+  loopn (ist u p tz cur (single (soa_rr fin)) false false) (map single A) = (ist u p tz' cur (single (soa_rr fin)) false false, None).
+Proof.
+  induction A as [|r A IH]; intros tz tz' cur Hf Hm; cbn [map loopn m_fold] in *.
+  - inversion Hm; reflexivity.
+  - inversion Hf as [|? ? Hr Hf']; subst. rewrite (step_other u p fin Mid tz cur false r Hr).
+    unfold m_add in Hm. destruct (in_zone (r_name r)); cbn [negb].
+    + destruct (t_add false tz (single r)) as [z1| |]; try discriminate. cbn [res_of]. apply IH; assumption.
+    + apply IH; assumption.
+Qed.
+
+Lemma m_run : forall secs tz cur e z',
+  skel_g cur fin secs -> m_secs tz secs = Ok z' ->
+  loopn (ist u p tz cur (single (soa_rr fin)) e false) (map single (secs_stream secs)) =
+  (ist u p z' (end_serial cur secs) (single (soa_rr fin)) (match secs with [] => e | _ => false end) false, None).
+Proof.
+  induction secs as [|c r IH]; intros tz cur e z' Hsk Hap.
+  - cbn in *. inversion Hap; subst. reflexivity.
+  - cbn [skel_g] in Hsk. destruct Hsk as (Hser & Hne & Httl & OD & OA & Hrest).
+    cbn [m_secs] in Hap.
+    destruct (m_fold m_del tz (c_dels c)) as [z1| |] eqn:Hd; try discriminate.
+    destruct (m_soa z1 (c_new c)) as [z2| |] eqn:Hso; try discriminate.
+    destruct (m_fold m_add z2 (c_adds c)) as [z3| |] eqn:Ha; try discriminate.
+    cbn [secs_stream map loopn end_serial]. rewrite <- Hser.
+    rewrite (step_del_start u Mid p tz fin (c_old c) e Hne).
+    rewrite map_app, loopn_app, (loopn_m_del _ _ _ _ OD Hd).
+    cbn [map loopn]. rewrite (step_add_start_m u p fin Mid z1 (v_serial (c_old c)) (c_new c)). rewrite Hso. cbn [res_of].
+    rewrite map_app, loopn_app, (loopn_m_add _ _ _ _ OA Ha).
+    rewrite (IH z3 (v_serial (c_new c)) false z' Hrest Hap). destruct r; reflexivity.
+Qed.
+End GENFWD.
+
+Theorem ixfr_sections_applied_any : forall fin secs z0 z1 z' ser ws,
+  secs <> [] -> skel_g ser fin secs -> end_serial ser secs = v_serial fin ->
+  v_serial fin <> ser -> serial_lt (v_serial fin) ser = false ->
+  m_secs z0 secs = Ok z1 -> m_soa z1 fin = Ok z' ->
+  chunking tIXFR (soa_rr fin :: secs_stream secs ++ [soa_rr fin]) ws ->
+  exists n, inbound_xfr z0 tIXFR (Some ser) false ws = (Done z', n).
+Proof.
+  intros fin secs z0 z1 z' ser ws Hne Hsk Hend Hs Hlt Hap Hso Hch.
+  apply chunking_first in Hch. destruct Hch as (w & ws' & a & -> & Hr & Hw & Hws & Hcat).
+  pose proof (m_run false z0 fin secs z0 ser true z1 Hsk Hap) as Hl.
+  assert (E : (match secs with [] => true | _ :: _ => false end) = false) by (destruct secs; [congruence|reflexivity]).
+  rewrite E, Hend in Hl.
+  pose proof (step_final_m false z0 fin z1 fin eq_refl) as Hf. rewrite Hso in Hf. cbn [res_of] in Hf.
+  unfold inbound_xfr, xfr_run. rewrite init_ixfr. cbn [Z.eqb tIXFR Pos.eqb]. rewrite drive_cons by solve_req.
+  rewrite (first_message_ixfr z0 ser false w (soa_rr fin) a Hw Hr) by (split; reflexivity).
+  cbv zeta. change (r_data (soa_rr fin) mod two32) with (v_serial fin).
+  apply Z.eqb_neq in Hs. rewrite Hs, Hlt. cbn [andb]. rewrite after_tcp by reflexivity.
+  assert (Hrun : running (ist false z0 z0 ser (single (soa_rr fin)) true false)).
+  { repeat split; try reflexivity; discriminate. }
+  destruct (cont_records ws' a (ist false z0 z0 ser (single (soa_rr fin)) true false)
+              (secs_stream secs) (soa_rr fin) _ _ Hrun Hws Hcat Hl eq_refl Hf eq_refl) as [n Hn].
+  exists n. exact Hn.
+Qed.
